@@ -68,9 +68,19 @@ func c01Run(c *fw.Case, env *fw.Env) *fw.Obs {
 			}
 			return o
 		}
+	} else if res.Err != nil && res.Faulted != "" {
+		// a spill file came back one byte short: refusing the ingest is the right answer
+		o.Ev("spill_faults_refused", 1)
+		o.Key("spill-fault/%s/%s", class, cfgString(p.Cfg))
+		return o
 	} else if res.Err != nil {
 		o.Violate("ingest-error/"+entry+"/"+class, "well-formed CSV (%d rows, max cell %d) refused: %v", len(rows), mc, res.Err)
 		return o
+	}
+	if res.Faulted != "" {
+		// accepted although a spill file was short: then the table must still be the file's rows (checked below)
+		o.Ev("spill_faults_accepted", 1)
+		entry += "/spill-file-short"
 	}
 	if res.Sum == nil {
 		return o
@@ -258,6 +268,18 @@ func init() {
 					}
 				}
 				l.Add("random", c01Params{T: s, Cfg: cfg}, 0)
+			}
+			// spill files that come back short: the ingest must be refused (or still be right)
+			for i := 0; i < l.N(24, 1500); i++ {
+				s := randTblSpec(rng, rng.Intn(2) == 0)
+				if s.Rows < 30 {
+					s.Rows = 30 + rng.Intn(700)
+				}
+				cfg := ingCfg{Chunks: []string{"two", "five", "every", "one"}[rng.Intn(4)], Workers: workerChoices[rng.Intn(len(workerChoices))], Store: "mem", Via: "pkg", SpillFault: 1 + rng.Intn(50)}
+				if s.Rows > 400 && cfg.Chunks == "every" {
+					cfg.Chunks = "five"
+				}
+				l.Add("spill-fault", c01Params{T: s, Cfg: cfg}, 0)
 			}
 			// a few larger tables
 			for i := 0; i < l.N(2, 12); i++ {
